@@ -124,7 +124,19 @@ def run_case(cs):
         nm = (dn + "/" if dn else "") + cand
         if nm not in files and nm.lower() != basef.lower() or (nm not in files and nm != basef):
             late[gl] = nm
+    # a travelling history: every generation is written under another zone (the wall-clock reading of a later generation
+    # may be earlier than that of generation 1), now and then with a clock that was set back
+    travel = (not exhaustive) and rng.random() < 0.2
+    tnow = 1700000000 + rng.randint(0, 10**7)
+    if travel:
+        cs.count("travelling_histories")
     for g, fm in enumerate(seq):
+        if travel:
+            from .. import clock
+
+            tnow += rng.choice([2, 60, 3600, 7200, 86400]) if rng.random() < 0.85 or g == 0 else -rng.choice([1800, 3600, 86400])
+            clock.set_zone(rng.choice(["Pacific/Kiritimati", "Pacific/Pago_Pago", "UTC", "Asia/Tokyo", "America/Los_Angeles", "Europe/Berlin"]))
+            clock.freeze(tnow)
         if g in late:
             nm = late[g]
             original[nm] = rng.randbytes(rng.randint(1, 30)) + nm.encode()
